@@ -275,6 +275,7 @@ def run(F, rep, tier):
     number_carrier_rule(F, rep)
     fresh_scope_rule(F, rep)
     finite_number_rule(F, rep)
+    extractor_error_rule(F, rep)
 
     # ---------------- R18.1
     all_impls = {n: h for n, h in F.hir.items() if n.endswith("as dmntk_common::jsonify::Jsonify>::jsonify")}
@@ -811,3 +812,52 @@ def finite_number_rule(F, rep):
         else:
             rep.ok(rid, key, "text conversion only on the finite branch")
     rep.floor(rid, "jsonify implementations of the number type", n, 1)
+
+
+def extractor_error_rule(F, rep):
+    """R18.13: a request is rejected by the framework itself, before the endpoint runs, when an extractor of the endpoint's signature fails: Json<T> (malformed JSON), the raw
+    body as String / Bytes (not UTF-8: 400, over the payload limit: 413).  The framework's own answers are plain text.  'Every response is a well-formed JSON document'
+    therefore needs, for every kind of extractor the endpoints use, a place where its failure is turned into JSON: an `error_handler` on the extractor's configuration
+    (JsonConfig, PathConfig, QueryConfig) or an ErrorHandlers middleware registered for the status codes that extractor answers with."""
+    from facts import find_hir
+    rid = rep.rule("R18.13", "every extractor of an endpoint's signature whose failure the framework answers itself (Json, String / Bytes bodies) has its failure turned into JSON in the App factory")
+    kinds = {}
+    for name, h in F.hir.items():
+        if not re.match(r"^<dmntk_server::server::\w+ as actix_web::service::HttpServiceFactory>::register::\w+$", name):
+            continue
+        tys = F.crates[h["_crate"]]["types"]
+        for q in h.get("params", []):
+            t = tys[q.get("t")] if isinstance(q.get("t"), int) else ""
+            k = "Json" if t.startswith("actix_web::types::json::Json<") else "body" if t in ("alloc::string::String", "bytes::bytes::Bytes", "actix_web::web::Bytes") else \
+                "Form" if "types::form::Form<" in t else "Query" if "types::query::Query<" in t else None
+            if k:
+                kinds.setdefault(k, []).append(name.split("::")[-1])
+    fac = F.hir.get("dmntk_server::server::start_server")
+    if fac is None:
+        rep.missing_anchor(rid, "dmntk_server::server::start_server")
+        return
+    where = "%s:%s" % (fac["file"], fac["line"])
+    calls = find_hir(fac["body"], lambda x: x.get("k") == "MethodCall")
+    config_handlers = {str(c.get("callee") or "").split("::")[-3] if False else re.sub(r".*::(\w+Config)::.*", r"\1", str(c.get("callee") or "")) for c, _ in calls
+                       if c.get("method") == "error_handler"}
+    statuses = set()
+    wrapped = any(c.get("method") == "wrap" for c, _ in calls)
+    for c, _ in calls:
+        if c.get("method") == "handler" and "errhandlers::ErrorHandlers" in str(c.get("callee") or "") and c.get("args"):
+            a = c["args"][0]
+            if a.get("k") == "Path":
+                statuses.add(str(a.get("path") or "").split("::")[-1])
+    need = {"Json": ("JsonConfig", {"BAD_REQUEST"}), "body": (None, {"BAD_REQUEST", "PAYLOAD_TOO_LARGE"}), "Form": ("FormConfig", {"BAD_REQUEST", "PAYLOAD_TOO_LARGE"}), "Query": ("QueryConfig", {"BAD_REQUEST"})}
+    for k, users in sorted(kinds.items()):
+        key = "extractor:%s" % k
+        cfg, codes = need[k]
+        if cfg is not None and cfg in config_handlers:
+            rep.ok(rid, key, "%s.error_handler answers with JSON (endpoints: %s)" % (cfg, ", ".join(sorted(set(users)))))
+        elif wrapped and codes <= statuses:
+            rep.ok(rid, key, "ErrorHandlers middleware registered for %s (endpoints: %s)" % (", ".join(sorted(codes)), ", ".join(sorted(set(users)))))
+        else:
+            rep.violation(rid, key, "the endpoints %s take a %s extractor; when it fails the framework answers itself in plain text (%s) and nothing in the App factory turns that answer "
+                          "into JSON: neither an error_handler on its configuration nor an ErrorHandlers middleware for %s" % (
+                              ", ".join(sorted(set(users))), {"body": "raw body (String / Bytes)"}.get(k, k), "`Can not decode body`, `A payload reached size limit.`" if k == "body" else "400",
+                              ", ".join(sorted(codes - statuses))), where)
+    rep.floor(rid, "kinds of fallible extractors used by the endpoints", len(kinds), 2)
